@@ -11,7 +11,7 @@ pub fn spec(prop: &str, quick: bool) -> Option<CheckSpec> {
     let lifecycle_rule = "plans drawn by a seeded PRNG (hash x per-level (w,h) x levels 1..8 x start counter x fault mix x API mix x aux); a run is non-trivial if at least one fault kind fired (callback reject, crash before/after durable, crash after return, restart) and an oracle was evaluated afterwards; distinct = distinct hash of (key shapes, op-kind sequence incl. API/callback kinds, set of fault kinds that fired)";
     Some(match prop {
         "C01" => CheckSpec { property: "C01", level: "exploration", parts: vec![p("lifecycle", 1500, 6000), p("lifecycle-full", 300, 1500), p("wire", 100, 600), p("aux", 300, 2000), p("radix-e2e", 6, 30), p("corners", gen::CORNERS, gen::CORNERS), p("tall", crate::gen2::tall_space(true), crate::gen2::tall_space(false))], exhaustive_note: None, rule: lifecycle_rule },
-        "C03" => CheckSpec { property: "C03", level: "exploration", parts: vec![p("lifecycle", 1500, 6000), p("lifecycle-full", 500, 2000), p("corners", gen::CORNERS, gen::CORNERS)], exhaustive_note: None, rule: lifecycle_rule },
+        "C03" => CheckSpec { property: "C03", level: "exploration", parts: vec![p("lifecycle", 1500, 6000), p("lifecycle-full", 500, 2000), p("radix-e2e", 6, 30), p("corners", gen::CORNERS, gen::CORNERS)], exhaustive_note: None, rule: lifecycle_rule },
         "C05" => CheckSpec { property: "C05", level: "exploration", parts: vec![p("lifecycle-full", 600, 2500), p("lifecycle", 600, 3000), p("radix-arith", 20, 200), p("corners", gen::CORNERS, gen::CORNERS)], exhaustive_note: None, rule: lifecycle_rule },
         "C07" => CheckSpec { property: "C07", level: "exploration", parts: vec![p("lifecycle", 1500, 6000), p("lifecycle-full", 300, 1500), p("handover", 40, 400), p("radix-e2e", 6, 30), p("corners", gen::CORNERS, gen::CORNERS), p("tall", crate::gen2::tall_space(true), crate::gen2::tall_space(false))], exhaustive_note: None, rule: lifecycle_rule },
         "C04" => CheckSpec {
